@@ -73,6 +73,8 @@ SELECTORS = [
     "lower(r.l) == ['abc']", "upper(r.l) == ['ABC', 'A']", "field_contains(r, ['l'], ['a'])",
     "field_equals(r, ['l', 's'], ['abc'])", "any(f.name == 'n' for f in fields('varint'))",
     "any(f.name == 'port' for f in fields('uint16'))", "fields('string')", "any(f.name == 's' for f in fields('string')) and r.idx % 2 == 0",
+    # a path field (both flavours occur) compared with text: how the literal is read depends on the record at hand only
+    "r.p == 'c:/tmp/x'", "r.p == '/tmp/x'", "r.p != 'c:/tmp/x'", "r.p == 'c:/tmp/x' or r.name == 'zz'", "r.p == 'C:/TMP/x'",
     # constructors applied to values that are EQUAL across records but of different types (1, 1.0, True)
     "string(r.n) == '1'", "string(r.n) == '1.0'", "string(r.m) == 'True'", "string(r.m) == '1'", "wstring(r.n) in ['1', '0']",
 ]
@@ -119,6 +121,11 @@ def _val(r, ftype, fname, adapter):
         return V.NONE if none else ["list", [V.S(r.choice(S_POOL)) for _ in range(r.randint(0, 3))]]
     if fname == "nums":
         return V.NONE if none else ["list", [V.I(r.randint(0, 5)) for _ in range(r.randint(0, 3))]]
+    if fname == "p" and ftype == "path":
+        # both flavours in one field, spelled so that a comparison with a text literal has to PARSE the literal
+        return V.NONE if none else r.choice([["path", "windows", V.enc_str("c:\\tmp\\x")], ["path", "posix", V.enc_str("/tmp/x")],
+                                             ["path", "posix", V.enc_str("c:/tmp/y")], ["path", "windows", V.enc_str("C:/tmp/X")],
+                                             ["path", "posix", V.enc_str("c:/tmp/x")]])
     if fname == "port":
         return V.NONE if none else V.I(r.choice([80, 443, 0, 65535, 8080]))
     if ftype == "float" and fname == "n":
@@ -260,8 +267,24 @@ def gen_cases(rng, tier):
     for i in range(n_thread):
         n = r.choice([2, 3, 4, 6, 9])
         recs = _gen_records(r, "stream", n)
+        if r.chance(12) and len(recs) >= 2:
+            # grouped records among them (their fields resolve through the members)
+            k_ = r.randint(0, len(recs) - 2)
+            recs[k_:k_ + 2] = [["grouped", "grp/c10", recs[k_:k_ + 2]]]
+            recs.append(["grouped", "grp/c10", [recs[0] if recs[0][0] == "rec" else recs[-1]]])
         cases.append({"kind": "thread", "records": recs, "selector": SELECTORS[i % len(SELECTORS)],
                       "engine": r.choice(["interp", "compiled"]), "shuffle": r.randint(0, 2 ** 30)})
+    # path fields of both flavours compared with a text literal (see SELECTORS): runs of net/c records only
+    r = rng.fork("paths")
+    for text in [t for t in SELECTORS if "r.p " in t]:
+        for engine in ("interp", "compiled"):
+            for _ in range({"quick": 3, "thorough": 40, "search": 8}[tier]):
+                recs = []
+                for i in range(r.randint(3, 7)):
+                    vals = [V.I(i) if fn == "idx" else _val(r, t, fn, "stream") for t, fn in FAM_C[1]]
+                    recs.append(["rec", FAM_C, vals, {"_generated": ["dt", [2020, 1, 2, 3, 4, 5, 0], "utc", 0]}])
+                cases.append({"kind": "thread", "records": recs, "selector": text, "engine": engine,
+                              "shuffle": r.randint(0, 2 ** 30)})
     return cases
 
 
@@ -536,13 +559,42 @@ def _shuffled(n, seed):
     return order
 
 
+_other = {}
+
+
+def _interfere():
+    """unrelated matching elsewhere in the process (another reader, another selector, other literals): verdicts for the
+    records at hand may not depend on it"""
+    import warnings
+
+    from flow.record import RecordDescriptor
+    from flow.record.fieldtypes import posix_path
+    from flow.record.selector import CompiledSelector, Selector
+    if not _other:
+        d = RecordDescriptor("c10/other", [("path", "p"), ("string", "s"), ("varint", "n"), ("string[]", "l")])
+        _other["rec"] = d(p=posix_path("/etc/hosts"), s="zz", n=1, l=["q"])
+        _other["sels"] = [c(t) for t in ("r.p == '/etc//passwd'", "r.s == 'q'", "r.n in [5]", "lower(r.s) == 'x'",
+                                         "any(x == 'b' for x in r.l)") for c in (Selector, CompiledSelector)]
+    with warnings.catch_warnings():
+        warnings.simplefilter("ignore")
+        for sel in _other["sels"]:
+            try:
+                sel.match(_other["rec"])
+            except Exception:      # noqa: BLE001
+                pass
+
+
 def _history(records, form_or_engine, text, seed, maker):
     """fresh outcome per record, purity, and one reused object in three orders."""
     fresh, impure = [], []
+    def state(rec):
+        # deep observation + the names in the instance dictionary (grouped records have one: matching adds nothing to it)
+        return [_h(V.observe(rec)), sorted(getattr(rec, "__dict__", {}))]
     for i, rec in enumerate(records):
-        before = _h(V.observe(rec))
+        before = state(rec)
+        _interfere()
         fresh.append(_outcome(maker(), rec))
-        if _h(V.observe(rec)) != before:
+        if state(rec) != before:
             impure.append(i)
     n = len(records)
     orders = {"fwd": list(range(n)), "rev": list(range(n - 1, -1, -1)), "shuf": _shuffled(n, seed) + _shuffled(n, seed + 1)}
@@ -572,7 +624,7 @@ def run_real(case):
             sel = ["other", repr(ret)]
         return {"sel": sel, "same_object": ret is arg}
     if k == "thread":
-        recs = [V.build_record(rs) for rs in case["records"]]
+        recs = [V.build(rs) for rs in case["records"]]
         cls = Selector if case["engine"] == "interp" else CompiledSelector
         try:
             cls(case["selector"])
